@@ -1,6 +1,6 @@
 (* Extraction of the C08 models for the correspondence check. ExtrOcamlBasic only. *)
 From V.lib Require Import Base.
-From V.c08 Require Import C08Model C08Spec C08SelModel C08FragModel C08EncModel.
+From V.c08 Require Import C08Model C08Spec C08SelModel C08FragModel C08EncModel C08SwModel.
 Require Import ExtrOcamlBasic.
 Separate Extraction
   rsk rf mdat boxhdr
@@ -13,4 +13,5 @@ Separate Extraction
   topbox boxdesc decode_file_top layout_at views erase
   payload_size file_mdat mdat_view decode_file_mdat
   aux tbox frag seg fstate decode_file_frag fin_state mkey mdat_is_lazy
-  encode_tops encode_tops_splice elide mdat_for_writing.
+  encode_tops encode_tops_splice elide mdat_for_writing
+  swr sw_write mdat_encode_sw encode_tops_sw sw_new.
